@@ -121,7 +121,7 @@ func joinable(c Case, ref func(p cat.Program, entry string, v int) (result, erro
 			return false
 		}
 		seatOn := &seat{p: p, page: p.Name + ".vuego", eng: newEngineFor(cat.Program{Opts: opts}, memfs.FromMap(files), []string{st.Entry})}
-		got, err := seatOn.call(st.Entry, goData(p, st.Var))
+		got, err := seatOn.callVar(st.Entry, goData(p, st.Var), st.Var)
 		if err != nil || got.failed != want.failed || !bytes.Equal(got.out, want.out) {
 			return false
 		}
